@@ -16,7 +16,7 @@ RULE = ("executable programs over the native gate set with aliases-of-aliases an
 ASSUMPTIONS = ["statement-level queries on busy gates are made through the circuit only",
                "reference used set = syntactic reachability through macros, loops of any count, nested blocks, aliases, lets; busy = all qubits, idle = none"]
 TIERS = {"quick": {"shards": 8, "budget_s": 240}, "thorough": {"shards": 16, "budget_s": 360}}
-REQUIRE = {"bounding-gate-in-a-parallel-block:emulator": 300, "bounding-gate-in-a-parallel-block:output-list": 300, "circuits-built-through-CircuitBuilder": 800, "whole-register-arguments-analysed": 3000, "busy-gate-beside-active": 100, "busy-gate-beside-active:stretched": 100, "macro-parameters-given-a-kind": 500, "macro-bodies-analysed-in-a-second-call-site-scope": 100, "macro-bodies-analysed-in-call-site-scope": 300, "gate-set:Ad": 500, "overlap:ref-yes": 100, "overlap:ref-no": 300, "used-circuit-compared": 500, "used-statement-compared": 500,
+REQUIRE = {"bounding-gate-in-a-parallel-block:emulator": 300, "bounding-gate-in-a-parallel-block:output-list": 300, "circuits-built-through-CircuitBuilder": 600, "whole-register-arguments-analysed": 3000, "busy-gate-beside-active": 100, "busy-gate-beside-active:stretched": 100, "macro-parameters-given-a-kind": 500, "macro-bodies-analysed-in-a-second-call-site-scope": 100, "macro-bodies-analysed-in-call-site-scope": 300, "gate-set:Ad": 500, "overlap:ref-yes": 100, "overlap:ref-no": 300, "used-circuit-compared": 500, "used-statement-compared": 500,
            "permutations-compared": 100, "merge-decisions-observed": 500, "idle-beside-active": 10}
 
 MERGE_LOG = []
